@@ -382,6 +382,23 @@ func (b *Built) Execute(r *rand.Rand) {
 			ret.Outs = ResultToks(res)
 		}
 		env.emit(ret)
+		// the returned function is an ordinary function: call it a second time, now with the ZERO value of
+		// every declared input (token 0); nothing of the first call may linger, and a zero value is a value
+		env.Phase = s.Phase0 + 2
+		var call2 []am.Arg
+		for _, l := range rd.Inputs {
+			call2 = append(call2, apiArg(l, MkValue(l.Type, 0).Interface(), r.Intn(3)))
+		}
+		res2 := nf.Call(call2...)
+		ret2 := emptyRet("", s.Phase0+2)
+		ret2.Len = res2.Len()
+		if e := res2.Err(); e != nil {
+			b.classifyErr(e, &ret2)
+		} else {
+			ret2.Kind = "ok"
+			ret2.Outs = ResultToks(res2)
+		}
+		env.emit(ret2)
 	default:
 		panic("harness: unknown mode " + s.Mode)
 	}
